@@ -32,6 +32,8 @@
 //	  The prologue runs first; then all workers run concurrently, the Go scheduler interleaves them;
 //	  every PutB is delayed by a pseudo-random time and fails with probability failpct%.
 //	  save,<m|s> results carry the snapshot and the workers' op counters before/after the call.
+//	  rep,<n>,<op>: op issued n times in a row (a burst that overlaps other goroutines' lock
+//	  acquisitions); result = the n results run-length encoded, "<res>*<k>/<res2>*<k2>/...".
 //	Result: <prologue results>|<w0 results>|...|final=<snap>|finalsave=<snap>|maxput=<n>|cow=<n>
 package arvados
 
@@ -1248,6 +1250,35 @@ func verifC13Free(max, thr int, seed int64, failpct int, streams []string) strin
 						r = "ok=" + st.snapManifest(txt)
 					}
 					r += "@" + lo + "~" + hi
+				} else if strings.HasPrefix(op, "rep,") {
+					// rep,<n>,<op>: op n times in a row; results run-length encoded "r*k/r2*k2/..."
+					b := strings.SplitN(op, ",", 3)
+					n := 0
+					if len(b) == 3 {
+						n, _ = strconv.Atoi(b[1])
+					}
+					if n < 1 || strings.HasPrefix(b[2], "rep,") || strings.HasPrefix(b[2], "save,") {
+						atomic.StoreInt32(&bad, 1)
+					} else {
+						var pieces []string
+						prev, cnt := "", 0
+						for k := 0; k < n; k++ {
+							x := st.exec(handles, b[2], false)
+							if x == "bad-op" {
+								atomic.StoreInt32(&bad, 1)
+							}
+							if cnt > 0 && x == prev {
+								cnt++
+								continue
+							}
+							if cnt > 0 {
+								pieces = append(pieces, fmt.Sprintf("%s*%d", prev, cnt))
+							}
+							prev, cnt = x, 1
+						}
+						pieces = append(pieces, fmt.Sprintf("%s*%d", prev, cnt))
+						r = strings.Join(pieces, "/")
+					}
 				} else {
 					r = st.exec(handles, op, false)
 					if r == "bad-op" {
